@@ -63,6 +63,9 @@ impl UrlPath {
             }
 
             if _char == ']' && previous_char.is_some() && previous_char.unwrap() == ']' {
+                if !is_opened_token {
+                    return Err("at least one extra ] char".to_string());
+                }
                 is_opened_token = false;
                 let without_square_brackets = _buffer.len() - 2;
                 let key : String = _buffer[0..without_square_brackets].into_iter().collect();
@@ -229,7 +232,11 @@ impl UrlPath {
                 let static_pattern = part.static_pattern.clone().unwrap();
                 // println!("static pattern {:?}", static_pattern);
                 // println!("path {:?}", path);
-                path = path.strip_prefix(static_pattern.as_str()).unwrap().to_string();
+                let boxed_strip = path.strip_prefix(static_pattern.as_str());
+                if boxed_strip.is_none() {
+                    return Err(format!("path does not match the pattern at {}", static_pattern));
+                }
+                path = boxed_strip.unwrap().to_string();
             } else {
                 // continue, unless the part is last,
                 // if so read to the end of path and add to map
